@@ -25,9 +25,9 @@ var suitesByProp = map[string][]func(*runner, *rng){
 	"C04": {suiteSsa, suiteSsaModel},
 	"C17": {suiteSchedules, suiteStlIO, suiteTeletextFullReader, suiteTeletextSchedules},
 	"C19": {suiteDeterminism},
-	"C08": {suiteTotality, suiteTeletextHostile},
+	"C08": {suiteTotality, suiteTeletextHostile, suiteStlNilItems},
 	"C06": {suiteTeletext, suiteTeletextModel, suiteTeletextHamming},
-	"C07": {suiteConvert, suiteConvertModel, suiteConvertOps, suiteConvertCLI, suiteConvertRich, suiteConvertPlain, suiteConvertCLIModel, suiteConvertPlainStyled, suiteConvertPlainTtx, suiteConvertStyledTtx},
+	"C07": {suiteConvert, suiteConvertModel, suiteConvertOps, suiteConvertCLI, suiteConvertRich, suiteConvertPlain, suiteConvertCLIModel, suiteConvertPlainStyled, suiteConvertPlainTtx, suiteConvertStyledTtx, suiteConvertStlStyled},
 	"C20": {suiteConcurrency},
 	"C18": {suiteFaults, suiteStlIO, suiteTeletextFullReader, suiteTeletextFaults},
 	"C03": {suiteTtml},
